@@ -18,6 +18,10 @@
               set_address_for_tens asserts that an id never receives two addresses.
      debugdb  debug_database.DebugDatabase tables.
      rng      the state of the global random generator (hillclimb_allocation).
+     cbuf     state the CALLER owns and the compiler is handed: the bytes-like object given to
+              convert_bytes (a bytearray the caller keeps and passes again, a writable memoryview of
+              it, a read-only memoryview) or the model file.  cbuf = the models whose kept buffer no
+              longer holds the bytes the caller put there.  No entry point can repair it.
 
    (architecture_features.default_arch_cache is only used by the external API and
    range_set.MemoryAccessSet.conflicts is memoised on object identity while the memo
@@ -45,7 +49,17 @@
          even A;A lays out its constants differently from A alone;
      (A) assigning an address to an id that still has one in the address map - the
          value-keyed ids, and the ids of tensor objects obtained through (W).
-   plus (R) the random generator if the allocator did not reseed it.
+   plus (R) the random generator if the allocator did not reseed it,
+     (D) the debug database tables when the options of the compilation write them out
+         (--enable-debug-db: <net>_debug.xml is one of the files a compilation produces; uids and
+         command stream ids continue from what earlier compilations left in the tables),
+     (B) the caller's buffer: the same bytearray (or a writable view of it) handed in again after
+         an earlier compilation wrote into it.  The reader is specified to copy every constant out
+         of the buffer it is given (ReaderCopies); graph rewrites that modify a constant in place
+         (InPlace: split_pad_to_sub_pad for a PAD of batch and channels) then work on the copy.  If it
+         did not copy, such a compilation would modify caller state (CallerStateUntouched), the next
+         compilation of the kept buffer would compile another network (HistoryIndependent), and a
+         read-only container would make the in-place write raise (ContainerIndependent).
    The model checker enumerates, for every history over the alphabet, which doors are
    open at which step ("exposure"); those histories are the replay plan of the harness.
    The outcome of an exposed step is left open (it may still be the isolated result);
@@ -53,25 +67,43 @@
    content of HistoryIndependent / NoFailureFromHistory. *)
 EXTENDS Integers, Sequences, FiniteSets, TLC
 
-CONSTANTS Letters,    \* alphabet: set of [e |-> entry point, mo |-> name of a (model, options) pair]
+CONSTANTS Letters,    \* alphabet: set of [e |-> entry point, mo |-> name of a (model, options) pair, c |-> container]
           VK,         \* VK[mo]  value keys handed to create_equivalence_id when compiling mo
           WK,         \* WK[mo]  weight-cache keys of mo whose weight value_id is value keyed
           Acc,        \* Acc[mo] accelerator of mo
+          Opt,        \* Opt[mo] options of mo that write an additional file from process-wide state ("ddb")
+          Mdl,        \* Mdl[mo] the model of mo (several mo differ in their options only)
+          InPlace,    \* InPlace[mo]: a graph rewrite of this compilation writes into a constant of the input network in place
+          ReaderCopies, \* the reader copies every constant out of the buffer it was handed
           MaxLen,     \* histories of length <= MaxLen
-          Policy,     \* "as_is" | "clear_at_entry"
+          Policy,     \* "as_is" | "clear_at_entry" | "clear_caches_at_entry"
           SeedsRng    \* the allocator calls random.seed(1) before drawing
 
-VARIABLES st,         \* [wcache, eqids, addrmap, debugdb, rng]
+VARIABLES st,         \* [wcache, eqids, addrmap, debugdb, rng, cbuf]
           hist,       \* sequence of letters compiled so far
-          res         \* sequence of [kind, mo, expo] : outcome of each step
+          res         \* sequence of [kind, mo, expo, wrote] : outcome of each step
 vars == <<st, hist, res>>
 
 Entries == {"main", "convert", "convert_bytes"}
-Boot == [wcache |-> {}, eqids |-> {}, addrmap |-> {}, debugdb |-> {}, rng |-> "boot"]
+Boot == [wcache |-> {}, eqids |-> {}, addrmap |-> {}, debugdb |-> {}, rng |-> "boot", cbuf |-> {}]
+
+(* ---- containers: how the model reaches the entry point ----------------------------
+   file    main / convert: a path; the entry point reads the file into a buffer of its own
+   ba      convert_bytes(bytearray) that the caller drops afterwards
+   shared  convert_bytes(bytearray) that the caller keeps and passes again later (one per model)
+   mvrw    convert_bytes(memoryview) of that kept bytearray (writable)
+   mvro    convert_bytes(memoryview) of a bytes object (read-only) *)
+Containers == {"file", "ba", "shared", "mvrw", "mvro"}
+Kept(c) == c \in {"shared", "mvrw"}
+Writable(c) == c \in {"ba", "shared", "mvrw"}
 
 (* ---- which state an entry point clears ------------------------------------ *)
 AllState == {"wcache", "eqids", "addrmap", "debugdb"}
-ClearedAtEntry(e) == IF Policy = "clear_at_entry" THEN AllState ELSE {}
+(* "clear_caches_at_entry": the entry points reset the caches and leave the debug database to the clean_db() calls at
+   the end of convert / convert_bytes - the command line path has none *)
+ClearedAtEntry(e) == CASE Policy = "clear_at_entry" -> AllState
+                       [] Policy = "clear_caches_at_entry" -> AllState \ {"debugdb"}
+                       [] OTHER -> {}
 ClearedAtExit(e) == CASE e = "main" -> {}
                       [] e = "convert" -> {"debugdb"}
                       [] e = "convert_bytes" -> {"debugdb", "addrmap"}
@@ -79,7 +111,7 @@ Wipe(S, what) == [wcache |-> IF "wcache" \in what THEN {} ELSE S.wcache,
                   eqids |-> IF "eqids" \in what THEN {} ELSE S.eqids,
                   addrmap |-> IF "addrmap" \in what THEN {} ELSE S.addrmap,
                   debugdb |-> IF "debugdb" \in what THEN {} ELSE S.debugdb,
-                  rng |-> S.rng]
+                  rng |-> S.rng, cbuf |-> S.cbuf]
 
 (* ---- what a compilation reads ------------------------------------------------
    S : state at the call, vk / wk : value keys and weight-cache keys of the compilation *)
@@ -89,46 +121,61 @@ StaleW(S, wk) == {c \in S.wcache : c.k \in wk}
 Touched(S, vk, wk) == {<<"v", k>> : k \in vk} \cup {<<"w", c.k, c.own>> : c \in StaleW(S, wk)}
 StaleAddr(S, vk, wk) == {a \in S.addrmap : a.id \in Touched(S, vk, wk)}
 OtherAccel(S, wk, acc) == \E c \in StaleW(S, wk) : c.acc # acc
-Expo(S, vk, wk, acc) == [eq |-> vk \cap S.eqids,
-                         w |-> {c.k : c \in StaleW(S, wk)},
-                         xacc |-> OtherAccel(S, wk, acc),
-                         addr |-> {a.id : a \in StaleAddr(S, vk, wk)},
-                         rng |-> (~SeedsRng /\ S.rng # "boot")]
-Exposed(x) == x.w # {} \/ x.addr # {} \/ x.rng
+(* p : the parameters of one compilation
+       [vk, wk, acc, opts, mdl, c, inplace]  (Par(l) for a letter of the alphabet, observed values in HistoryTrace) *)
+WritesInput(p) == ~ReaderCopies /\ p.inplace /\ p.c # "file"
+Expo(S, p) == [eq |-> p.vk \cap S.eqids,
+               w |-> {c.k : c \in StaleW(S, p.wk)},
+               xacc |-> OtherAccel(S, p.wk, p.acc),
+               addr |-> {a.id : a \in StaleAddr(S, p.vk, p.wk)},
+               rng |-> (~SeedsRng /\ S.rng # "boot"),
+               ddb |-> ("ddb" \in p.opts /\ S.debugdb # {}),
+               buf |-> (Kept(p.c) /\ p.mdl \in S.cbuf)]
+Exposed(x) == x.w # {} \/ x.addr # {} \/ x.rng \/ x.ddb \/ x.buf
 
-(* outcomes the design permits for a step with exposure x.  "ok" = the isolated result. *)
-AllowedKinds(S, vk, wk, acc) ==
-    LET x == Expo(S, vk, wk, acc) IN
-      {"ok"} \cup (IF x.w # {} \/ x.rng THEN {"tainted"} ELSE {})
-             \cup (IF x.addr # {} \/ x.xacc THEN {"fail"} ELSE {})
+(* outcomes the design permits for a step with exposure x.  "ok" = the isolated result;
+   "cfail": the in-place write of a rewrite lands in a read-only container and raises, whatever was compiled before *)
+AllowedKinds(S, p) ==
+    LET x == Expo(S, p) IN
+      IF WritesInput(p) /\ ~Writable(p.c) THEN {"cfail"}
+      ELSE {"ok"} \cup (IF x.w # {} \/ x.rng \/ x.ddb \/ x.buf THEN {"tainted"} ELSE {})
+                  \cup (IF x.addr # {} \/ x.xacc THEN {"fail"} ELSE {})
+Failed(kind) == kind \in {"fail", "cfail"}
+(* the compilation modifies the object the caller handed in *)
+Wrote(p, kind) == WritesInput(p) /\ Writable(p.c) /\ kind # "cfail"
 
 (* ---- what a compilation writes ----------------------------------------------
    seeded: the hill-climb allocator ran (it calls random.seed(1) first); the other allocators never touch the RNG *)
-Post(S, n, e, mo, acc, vk, wk, failed, seeded) ==
-    LET new == wk \ WKeysOf(S)
+Post(S, n, e, mo, p, failed, seeded, wrote) ==
+    LET vk == p.vk
+        wk == p.wk
+        acc == p.acc
+        new == wk \ WKeysOf(S)
         wc == S.wcache \cup {[k |-> k, own |-> n, mo |-> mo, acc |-> acc] : k \in new}
         am == S.addrmap
                 \cup {[id |-> i, own |-> n] : i \in Touched(S, vk, wk) \ {a.id : a \in S.addrmap}}
                 \cup {[id |-> <<"w", k, n>>, own |-> n] : k \in new}
                 \cup {[id |-> <<"u", n>>, own |-> n]}
         full == [wcache |-> wc, eqids |-> S.eqids \cup vk, addrmap |-> am,
-                 debugdb |-> S.debugdb \cup {n}, rng |-> IF seeded THEN mo ELSE S.rng]
+                 debugdb |-> S.debugdb \cup {n}, rng |-> IF seeded THEN mo ELSE S.rng,
+                 cbuf |-> S.cbuf \cup (IF wrote /\ Kept(p.c) THEN {p.mdl} ELSE {})]
     IN IF failed THEN full ELSE Wipe(full, ClearedAtExit(e))
 
 (* ---- the design as a state machine over the alphabet ---------------------- *)
 Init == st = Boot /\ hist = <<>> /\ res = <<>>
 
+Par(l) == [vk |-> VK[l.mo], wk |-> WK[l.mo], acc |-> Acc[l.mo], opts |-> Opt[l.mo], mdl |-> Mdl[l.mo], c |-> l.c,
+           inplace |-> InPlace[l.mo]]
 Compile(l) ==
     /\ Len(hist) < MaxLen
     /\ LET n == Len(hist) + 1
            S == Pre(st, l.e)
-           vk == VK[l.mo]
-           wk == WK[l.mo]
-           x == Expo(S, vk, wk, Acc[l.mo])
-       IN \E kind \in AllowedKinds(S, vk, wk, Acc[l.mo]) :
-            /\ st' = Post(S, n, l.e, l.mo, Acc[l.mo], vk, wk, kind = "fail", TRUE)
+           p == Par(l)
+           x == Expo(S, p)
+       IN \E kind \in AllowedKinds(S, p) :
+            /\ st' = Post(S, n, l.e, l.mo, p, Failed(kind), TRUE, Wrote(p, kind))
             /\ hist' = Append(hist, l)
-            /\ res' = Append(res, [kind |-> kind, mo |-> l.mo, expo |-> x])
+            /\ res' = Append(res, [kind |-> kind, mo |-> l.mo, expo |-> x, wrote |-> Wrote(p, kind)])
 Next == \E l \in Letters : Compile(l)
 Spec == Init /\ [][Next]_vars
 
@@ -138,26 +185,34 @@ Spec == Init /\ [][Next]_vars
 HistoryIndependent == \A i \in DOMAIN res : res[i].kind # "tainted"
 (* a compilation never fails because of state left behind by a previous one *)
 NoFailureFromHistory == \A i \in DOMAIN res : res[i].kind # "fail"
+(* a compilation leaves the object it was handed (the caller's bytearray / memoryview, the model file) as it found it *)
+CallerStateUntouched == \A i \in DOMAIN res : ~res[i].wrote
+(* the result does not depend on the kind of bytes-like object the model arrives in *)
+ContainerIndependent == \A i \in DOMAIN res : res[i].kind # "cfail"
 (* the structural reason: no step reads anything an earlier step wrote *)
 NoExposure == \A i \in DOMAIN res : ~Exposed(res[i].expo)
 
 (* the same predicates on one observed step, used by HistoryTrace:
-   o, iso : [ok, exc, dig, csv] of the step and of the same letter compiled alone *)
-SameResult(o, iso) == o.ok = iso.ok /\ (o.ok => o.dig = iso.dig /\ o.csv = iso.csv)
+   o, iso : [ok, exc, dig, csv, art] of the step and of the same letter compiled alone; art = every file the
+   compilation wrote, as a set of <<name, digest>> (output model, summary, and whatever the options add:
+   <net>_debug.xml, <net>_per-layer.csv ...) *)
+SameResult(o, iso) == o.ok = iso.ok /\ (o.ok => o.dig = iso.dig /\ o.csv = iso.csv /\ o.art = iso.art)
 StepIndependent(o, iso) == o.ok => SameResult(o, iso)
 StepNoFailure(o, iso) == ~o.ok => (~iso.ok /\ iso.exc = o.exc)
 ObservedKind(o, iso) == IF ~StepNoFailure(o, iso) THEN "fail" ELSE IF ~StepIndependent(o, iso) THEN "tainted" ELSE "ok"
 
 TypeOK == /\ Len(hist) = Len(res) /\ Len(hist) <= MaxLen
-          /\ \A i \in DOMAIN hist : hist[i] \in Letters
+          /\ \A i \in DOMAIN hist : hist[i] \in Letters /\ hist[i].c \in Containers
+          /\ st.cbuf \subseteq {Mdl[l.mo] : l \in Letters}
           /\ \A c \in st.wcache : c.own \in 1..MaxLen
           /\ st.debugdb \subseteq 1..MaxLen
 
 (* every visited state is printed: "PLAN|history|exposure class per step|kind per step".
-   Class letters: W weight-cache door, A address door, X weights encoded for another accelerator, R rng. *)
+   Class letters: W weight-cache door, A address door, X weights encoded for another accelerator, R rng,
+   D debug database written out, B kept caller buffer an earlier step wrote into. *)
 Class(x, i) == (IF x.w # {} THEN "W" ELSE "") \o (IF x.xacc THEN "X" ELSE "") \o (IF x.addr # {} THEN "A" ELSE "")
-                 \o (IF x.rng THEN "R" ELSE "")
-LetterName(l) == l.e \o ":" \o l.mo
+                 \o (IF x.rng THEN "R" ELSE "") \o (IF x.ddb THEN "D" ELSE "") \o (IF x.buf THEN "B" ELSE "")
+LetterName(l) == l.e \o (IF l.c \in {"file", "ba"} THEN "" ELSE "/" \o l.c) \o ":" \o l.mo
 RECURSIVE Join(_, _)
 Join(q, sep) == IF q = <<>> THEN "" ELSE IF Len(q) = 1 THEN q[1] ELSE q[1] \o sep \o Join(Tail(q), sep)
 Plan == Len(hist) > 0 =>
